@@ -3,5 +3,8 @@ import Hub.Model.Run
 import Hub.Model.Monitors
 import Hub.Props.C01
 import Hub.Props.C13
+import Hub.Props.C13Facts
+import Hub.Props.C10
+import Hub.Props.C19
 import Hub.Props.C16
 import Hub.Props.C17
